@@ -9,3 +9,8 @@ const verifBoundIdxLookups = 2
 const verifBoundIdxFile = 72
 const verifBoundTail = 8
 const verifBoundManifestV4 = false
+const verifBoundIdxGarbage = 48
+var verifBoundFSModes = [5]bool{true, true, false, true, true}
+const verifBoundFSCorruptMetaOnly = true
+const verifBoundFSCommits = 2
+const verifBoundROTail = 6
